@@ -1154,6 +1154,9 @@ pub const NEST_PAYLOADS: &[&str] = &[
     "{\n  import \"m.typ\": b, /* c */ a // lc\n\n  b\n}",
     "not /* c */ a",
     "f(/* @typstyle off */ g(  1,2 ), (  3,4 ))",
+    "table(..args, columns: 2, [a], [b])",
+    "grid(columns: 2, ..head, [1], [2], table.footer([f]))",
+    "table(columns: (1fr, auto), table.header([h], [i]), [a], [b], table.hline(), [c], [d])",
 ];
 
 pub const NEST_MARKS: &[&str] = &["", "/* c */ ", "// @typstyle off\n", "/* @typstyle off */ ", "// lc\n"];
